@@ -204,7 +204,65 @@ U_STRUCT = Unit(P + '/compute_near_field-field-loop', ['Mininec.compute_near_fie
                 canaries=[Canary('field-loop-skips-a-point', 'Mininec.compute_near_field', _SkipZero,
                                  [P + '/compute_near_field[field loop]/no-early-exit'])])
 
-UNITS = [U_ANGLE, U_GRID, U_STRUCT]
+
+
+# ---------------------------------------------------------------- far-field tables: one row per grid point, in grid order
+def t_farfield_rows(eng):
+    """Far_Field_Pattern.db_as_mininec / abs_gain_as_mininec on a 2 x 2 grid of arbitrary (unordered, possibly equal)
+    angles: exactly one row per stored grid point, in the stored order, each row carrying the angles and the values of
+    its own point."""
+    n_ = P + '/far-field tables/'
+    ffp = SObj('Far_Field_Pattern', label='ff')
+    zen = [[fresh_real('zen%d%d' % (i, j)) for j in range(2)] for i in range(2)]
+    azi = [[fresh_real('azi%d%d' % (i, j)) for j in range(2)] for i in range(2)]
+    gain = [[[fresh_real('g%d%d%d' % (i, j, c)) for c in range(3)] for j in range(2)] for i in range(2)]
+    et = [[fresh_cx('et%d%d' % (i, j)) for j in range(2)] for i in range(2)]
+    ep = [[fresh_cx('ep%d%d' % (i, j)) for j in range(2)] for i in range(2)]
+    ffp.fields.update({'zen': NDArr(zen), 'azi': NDArr(azi), 'gain': NDArr(gain), 'e_theta': NDArr(et), 'e_phi': NDArr(ep)})
+    eng.summaries['format_float'] = K.sum_format_float
+    which = eng.choose(2)
+    q = ['Far_Field_Pattern.db_as_mininec', 'Far_Field_Pattern.abs_gain_as_mininec'][which]
+    s = eng.call_qual(q, [ffp])
+    eng.cover('farfield-rows-%d' % which)
+    from .C15 import lines_of
+    ls = lines_of(s) if isinstance(s, AStr) else []
+    eng.oblige(n_ + q.split('.')[1] + '/one-row-per-grid-point', len(ls) == 4, detail=str(len(ls)))
+    if len(ls) != 4:
+        return
+    flat_idx = [(0, 0), (0, 1), (1, 0), (1, 1)]
+    for k, (i, j) in enumerate(flat_idx):
+        vals = []
+        for t in ls[k].toks:
+            if t[0] == 'ff':
+                vals.append(t[1])
+            elif t[0] == 'conv':
+                vals.append(t[2])
+        ok = len(vals) >= 2
+        eng.oblige(n_ + q.split('.')[1] + '/row-k-carries-the-angles-of-grid-point-k',
+                   ok and bterm(b_and(num_eq(vals[0], zen[i][j]), num_eq(vals[1], azi[i][j]))))
+        if which == 0 and len(vals) >= 5:
+            eng.oblige(n_ + q.split('.')[1] + '/row-k-carries-the-gains-of-grid-point-k',
+                       # the angle arrays are stored (azimuth, zenith), the gains (zenith, azimuth, polarisation)
+                       # -- Far_Field_Pattern.__init__ receives them so from compute_far_field
+                       b_and(*[num_eq(vals[2 + c], gain[j][i][c]) for c in range(3)]))
+
+
+class _RowsSortedAngles(ast.NodeTransformer):
+    """the angle columns taken from the sorted distinct angles instead of the stored grid"""
+
+    def visit_Attribute(self, node):
+        self.generic_visit(node)
+        if ast.unparse(node) == 'self.zen.flat':
+            return ast.parse('np.repeat (np.unique (self.zen), 2, axis = 0)').body[0].value
+        return node
+
+
+U_FFROWS = Unit(P + '/far-field-tables', ['Far_Field_Pattern.db_as_mininec', 'Far_Field_Pattern.abs_gain_as_mininec'], t_farfield_rows, SCH,
+                notes='bounded(shape): 2 x 2 grid; angle and field values symbolic',
+                canaries=[Canary('far-field-rows-labelled-with-sorted-angles', 'Far_Field_Pattern.db_as_mininec', _RowsSortedAngles,
+                                 [P + '/far-field tables/db_as_mininec/'])])
+
+UNITS = [U_ANGLE, U_GRID, U_STRUCT, U_FFROWS]
 
 
 def _num(txt):
